@@ -2620,6 +2620,12 @@ func (p *printer) printExpr(expr js_ast.Expr, level js_ast.L, flags printExprFla
 			}
 			flags &= ^(isNewTarget | hasNonOptionalChainParent)
 		}
+		// "let[" cannot start an expression statement, so "(let)[0] = 1" must keep its
+		// parentheses. Marking this position makes the identifier case wrap "let".
+		if id, ok := e.Target.Data.(*js_ast.EIdentifier); ok && p.stmtStart == len(p.js) &&
+			p.renamer.NameForSymbol(id.Ref) == "let" {
+			p.forOfInitStart = len(p.js)
+		}
 		p.printExpr(e.Target, js_ast.LPostfix, (flags&(isNewTarget|hasNonOptionalChainParent))|isPropertyAccessTarget)
 		if e.OptionalChain == js_ast.OptionalChainStart {
 			p.print("?.")
@@ -4431,6 +4437,7 @@ func (p *printer) printStmt(stmt js_ast.Stmt, flags printStmtFlags) {
 			p.options.Indent++
 			p.printIndent()
 		}
+		p.forOfInitStart = len(p.js) // A leading "let" identifier must be parenthesized here too
 		p.printForLoopInit(s.Init, forbidIn)
 		p.printSpace()
 		p.printSpaceBeforeIdentifier()
@@ -4613,6 +4620,7 @@ func (p *printer) printStmt(stmt js_ast.Stmt, flags printStmtFlags) {
 			p.printIndent()
 		}
 		if init.Data != nil {
+			p.forOfInitStart = len(p.js) // "for (let[" starts a declaration, so "let" is parenthesized here too
 			p.printForLoopInit(init, forbidIn)
 		}
 		p.print(";")
